@@ -1,6 +1,6 @@
 #!/bin/bash
 # tools/harvest.sh <pid> : confirm every mutant in /tmp/wt/<pid>/mutants and copy the confirmed ones to seeded/
-pid=$1; wt=/tmp/wt/$pid
+pid=$1; root=${2:-/tmp/wt}; wt=$root/$pid
 for d in $wt/mutants/*/; do
   name=$(basename $d)
   if /verif/tools/confirm_mutant.sh $wt $name >/dev/null 2>&1; then
